@@ -261,6 +261,10 @@ func (c *channel) sendSession(ctx context.Context, ses *Session) error {
 		return fmt.Errorf("send session: cannot do in the %v state", state)
 	}
 
+	// session envelopes share the transport with the other send operations
+	c.sendMu.Lock()
+	defer c.sendMu.Unlock()
+
 	err := c.transport.Send(ctx, ses)
 	if err != nil {
 		return fmt.Errorf("send session: transport error: %w", err)
